@@ -3,7 +3,7 @@
    tar+gzip, .helmignore matching) are instantiated per case by tables of the answers the
    real libraries gave; a query missing from a table yields a sentinel that cannot match. *)
 From Coq Require Import List String Ascii Bool Arith ZArith.
-From Helm Require Import Values.Tree Chart.Paths Chart.Archive Chart.Files Chart.Save Chart.Load Chart.Ignore Gen.Limits.
+From Helm Require Import Values.Tree Chart.Paths Chart.Archive Chart.Files Chart.Save Chart.Load Chart.Ignore Chart.Match Gen.Limits.
 Import ListNotations.
 Local Open Scope string_scope.
 
@@ -85,9 +85,13 @@ Section WithOracle.
     end.
   Definition r_pmatch (p n : string) : bool := existsb (pair_eqb String.eqb String.eqb (p, n)) (o_match o).
   Definition r_pmatch_err (p : string) : bool := existsb (String.eqb p) (o_matcherr o).
-  (* the rules LoadDir builds: .helmignore of the tree (if any) plus the default rule *)
+  (* the rules LoadDir builds: .helmignore of the tree (if any) plus the default rule.
+     filepath.Match is the Gallina model (Chart/Match.v); the table of the real function's
+     answers for the case is held against it ([match_facts_ok]) *)
+  Definition match_facts_ok : bool :=
+    forallb (fun pn => gmatch_ok (fst pn) (snd pn)) (o_match o) && forallb gmatch_err (o_matcherr o).
   Definition m_rules (tree : list file) : option (list pat) :=
-    parse_ignore r_pmatch_err
+    parse_ignore gmatch_err
       (match filter (fun f => String.eqb (f_name f) ".helmignore") tree with f :: _ => Some (f_data f) | [] => None end).
   Definition r_depnames (m : meta) : list string :=
     match mid m with
@@ -107,7 +111,7 @@ Section WithOracle.
     match m_rules tree with
     | None => inl LIgnore
     | Some ps => load_dir_walk r_merge r_lockdec r_values r_untar r_san r_semver r_rest mt mf
-                               (rules_ignore r_pmatch ps) fuel (walk_sort tree)
+                               (rules_ignore gmatch_ok ps) fuel (walk_sort tree)
     end.
 End WithOracle.
 
@@ -120,6 +124,11 @@ Inductive case :=
 | CFiles (o : oracle) (files : list file) (loaded : lerr + chart)   (* loader.LoadFiles *)
 | CDir (o : oracle) (ignerr : bool) (pkgver : string) (tree : list file) (loaded : lerr + chart)
        (packaged : option (list tentry))                            (* action.Package.Run: entries of the .tgz *)
+| CMatch (pattern : string) (names : list string)
+         (res : string)                 (* filepath.Match per name: y / n / e (ErrBadPattern) *)
+         (ign : string)                 (* the pattern as a one-line .helmignore, freshly parsed per query: "E" = Parse
+                                           fails; else two letters per name, rules.Ignore(name, file) and (name, dir): i / k *)
+| CMatchEx (rows : list (string * string))   (* (pattern, results over [ex_names]) *)
 | COracleOnly
 | CPanic.
 
@@ -136,9 +145,35 @@ Definition lres_eqb (a b : lerr + chart) : bool :=
   | _, _ => false
   end.
 
+(* ---- filepath.Match and the rule evaluation on (pattern, name) pairs ---- *)
+Definition mres_char (r : mres) : ascii :=
+  match r with MYes => "y" | MNo => "n" | MBad => "e" | MFuel => "F" end%char.
+Definition match_row (p : string) (names : list string) : string :=
+  fold_right (fun n acc => String (mres_char (gmatch p n)) acc) EmptyString names.
+Definition ign_char (b : bool) : ascii := if b then "i"%char else "k"%char.
+Definition ignore_row (p : string) (names : list string) : string :=
+  match parse_ignore gmatch_err (Some p) with
+  | None => "E"
+  | Some ps =>
+      fold_right (fun n acc => String (ign_char (rules_ignore gmatch_ok ps n false))
+                                 (String (ign_char (rules_ignore gmatch_ok ps n true)) acc)) EmptyString names
+  end.
+
+(* the names of the exhaustive rows: every string of at most three letters over {a, b, /},
+   then a few that contain the pattern metacharacters *)
+Definition ex_letters : list ascii := ["a"; "b"; "/"]%char.
+Definition ex_extend (l : list string) : list string :=
+  flat_map (fun s => map (fun c => s ++ String c EmptyString) ex_letters) l.
+Definition ex_names : list string :=
+  let l0 := [EmptyString] in let l1 := ex_extend l0 in let l2 := ex_extend l1 in let l3 := ex_extend l2 in
+  (l0 ++ l1 ++ l2 ++ l3 ++ ["-"; "^"; "]"; "\"; "*"; "?"; "["; "a-"; "ab]"; "a]"; "^a"])%list.
+
 Definition case_ok (c : case) : bool :=
   match c with
+  | CMatch p names res ign => String.eqb (match_row p names) res && String.eqb (ignore_row p names) ign
+  | CMatchEx rows => forallb (fun pr => String.eqb (match_row (fst pr) ex_names) (snd pr)) rows
   | CRt o ch saved loaded tree dirloaded =>
+      match_facts_ok o &&
       opt_eqb (list_eqb te_eqb) (m_save o ch) saved &&
       match saved with
       | Some es => lres_eqb (m_load_archive o (mkTS false es false)) loaded
@@ -151,7 +186,8 @@ Definition case_ok (c : case) : bool :=
   | CFiles o files loaded => lres_eqb (m_load_files o files) loaded
   | CDir o ignerr pkgver tree loaded packaged =>
       let res := m_load_dir o tree in
-      Bool.eqb ignerr (match m_rules o tree with None => true | Some _ => false end) &&
+      match_facts_ok o &&
+      Bool.eqb ignerr (match m_rules tree with None => true | Some _ => false end) &&
       lres_eqb res loaded &&
       match res with
       | inr ch => opt_eqb (list_eqb te_eqb) (m_package o pkgver ch) packaged
